@@ -64,6 +64,11 @@ func (n *Nonce) DecodeMsgpack(d *msgpack.Decoder) error {
 	switch nFields {
 	case 2:
 		n.version = nonceV0
+
+		// a two-field nonce has no proof flag. n may have been decoded into
+		// before (a map-encoded token can name the Nonce field twice), so don't
+		// keep a flag from an earlier value.
+		n.Proof = false
 	case 3:
 		n.version = nonceV1
 	default:
